@@ -23,6 +23,18 @@ Theorem C09_restart_purge_defined t h :
   exists t'', gk_block_connected (restart t (db_of t)) h = Ok tt t''.
 Proof. exact (restart_purge_defined t h). Qed.
 
+(* in every state of a history with kills and restarts (CrashReach.rreach) the purge at a block removes exactly the
+   users at expiry + grace and touches no other window *)
+Theorem C09_purge_exact_across_restarts le t h t' :
+  rreach le t -> gk_block_connected t h = Ok tt t' ->
+  (forall u, aget (db_users t') u =
+             match aget (db_users t) u with
+             | Some ui => if N.leb (u_expiry ui + c_delta (cfg t)) h then None else Some ui
+             | None => None
+             end) /\ gk_height t' = h.
+Proof. exact (rreach_purge_exact le t h t'). Qed.
+
+Print Assumptions C09_purge_exact_across_restarts.
 Print Assumptions C09_restart_loads_every_window.
 Print Assumptions C09_purge_after_clean_restart.
 Print Assumptions C09_restart_purge_defined.
